@@ -319,6 +319,9 @@ class Engine:
         return Sym(z, kind)
 
     def binop(self, op, a, b):
+        for x in (a, b):  # extension values (pyvc/ext_*.py) bring their own operator model
+            if hasattr(x, "__pyvc_binop__"):
+                return x.__pyvc_binop__(self, op, a, b)
         if isinstance(a, NArr) or isinstance(b, NArr) or isinstance(a, SArr) or isinstance(b, SArr):
             return self.models.array_binop(self, op, a, b)
         if isinstance(a, PList) and isinstance(b, PList) and isinstance(op, ast.Add):
